@@ -360,6 +360,18 @@ func runCase(c Case) *pt.Failure {
 			if err != nil {
 				return pt.Failf("C08/parser/"+c.Serializer+"/encode-error", "Encode: %v", err)
 			}
+			// another branch's log is encoded before the first result is used (the flush of one branch and the
+			// next): the bytes handed out earlier must still be what they were
+			snapshot := append([]byte(nil), enc...)
+			other := c.build()
+			other.Xid += "-other"
+			other.BranchID++
+			if _, err := p.Encode(other); err != nil {
+				return pt.Failf("C08/parser/"+c.Serializer+"/encode-error", "Encode: %v", err)
+			}
+			if !bytes.Equal(enc, snapshot) {
+				return pt.Failf("C08/parser/"+c.Serializer+"/result-aliased", "the encoded log changed when another log was encoded")
+			}
 			got, err := p.Decode(enc)
 			if err != nil {
 				return pt.Failf("C08/parser/"+c.Serializer+"/decode-error", "Decode: %v", err)
